@@ -13,7 +13,7 @@
    see C40_rr_refuted / C40_rr_never_a_map and C40_file_refuted /
    C40_file_never_a_map.  What holds is stated at full strength. *)
 From Coq Require Import Ascii String.
-From PV Require Import Base.Tac VpMap.VpMapDefs VpMap.VpMapProofs VpMap.VpMapBinding.
+From PV Require Import Base.Tac VpMap.VpMapDefs VpMap.VpMapProofs VpMap.VpMapBinding VpMap.VpMapHwloc.
 Local Open Scope Z_scope.
 
 (* flat maps: one virtual process, the requested number of threads, thread i is
@@ -71,6 +71,25 @@ Theorem C40_unreadable_file_falls_back_to_flat : forall s name nb R sing, choose
   vpmap_init (Some s) None nb R sing = flat R sing nb.
 Proof. exact unreadable_file_falls_back_to_flat. Qed.
 Print Assumptions C40_unreadable_file_falls_back_to_flat.
+
+(* ---- the hwloc map (runtime_vpmap=hwloc, parsec_vpmap_init_from_hardware_affinity):
+   [sockets] = cores of every object at the socket/NUMA level, each with at
+   least one core; nb >= 1 threads requested.  The map has one virtual process
+   per socket that receives a thread -- k of them, where the first k-1 sockets
+   hold fewer cores than requested and the first k hold enough (or k = all) --
+   none of them empty, the thread counts add up to min(nb, all cores), and
+   virtual process v sits on the first cores of socket v (hwloc core order) *)
+Theorem C40_hwloc_map : forall sockets R sing nb, sockets <> [] -> Forall (fun n => 1 <= n) sockets -> 1 <= nb ->
+  exists vs tot, hwloc_map sockets R sing nb = Map (Z.of_nat (length vs)) tot vs /\
+    Forall (fun v => v <> []) vs /\
+    nthreads vs = Z.min nb (zsum sockets) /\
+    (1 <= length vs <= length sockets)%nat /\
+    zsum (firstn (length vs - 1) sockets) < Z.min nb (zsum sockets) <= zsum (firstn (length vs) sockets) /\
+    (forall v ths, nth_error vs v = Some ths -> exists n, nth_error sockets v = Some n /\
+       Z.of_nat (length ths) <= n /\
+       ths = map (consolidate sing) (on_cores (zsum (firstn v sockets)) (length ths))).
+Proof. exact hwloc_map_spec. Qed.
+Print Assumptions C40_hwloc_map.
 
 (* ---- rr:n:p:c : "the runtime creates the requested number of virtual
    processes with the requested thread counts" is refuted.
@@ -159,6 +178,8 @@ Example C40_example :
   vpmap_init None None 5 16 1 =
     Map 1 5 [[mkt 3 0 (Fin [0]); mkt 3 0 (Fin [3]); mkt 3 0 (Fin [6]); mkt 3 0 (Fin [9]); mkt 3 0 (Fin [12])]] /\
   parse_binding 16 3 (list_ascii_of_string "1;7;2") = BOk [bound 1; bound 3; bound 5] /\
+  hwloc_map [4; 4] 8 0 4 = Map 1 4 [[mkt 1 0 (Fin [0]); mkt 1 0 (Fin [1]); mkt 1 0 (Fin [2]); mkt 1 0 (Fin [3])]] /\
+  hwloc_map [2; 2; 2] 6 0 3 = Map 2 4 [[mkt 1 0 (Fin [0]); mkt 1 0 (Fin [1])]; [mkt 1 0 (Fin [2])]] /\
   user_flat_bindings [2; 3; 5] 0 0 = Some [2; 3; 5] /\ user_flat_bindings [0; 1; 2; 3; 4; 6; 7] 0 2 = Some [0; 3] /\
   user_flat_bindings [0; 1; 2; 3; 4; 6; 7] 1 7 = Some [0; 1; 2; 3; 4; 6; 7].
 Proof. vm_compute. repeat split. Qed.
